@@ -37,6 +37,8 @@ type Options struct {
 	BigBitopWidth int
 	IntLimbs      bool
 	AllocSlack    int
+	MaxInitSteps  int
+	Fallbacks     []string
 }
 
 func (o *Options) skipInit(path string) bool { return o.SkipInit[path] }
@@ -106,30 +108,31 @@ type Sample struct {
 }
 
 type HarnessResult struct {
-	Name         string
-	Paths        int // completed feasible paths
-	PathsOK      int
-	Decisions    int // symbolic branch decisions
-	ChecksProved int
-	ChecksConst  int
-	Violations   map[string]*Violation
-	Inconclusive map[string]int // reason -> count
-	Reached      map[string]int
-	Samples      []Sample
-	MaxAlloc     int
-	Notes        map[string]int
-	Queries      int
-	SolverTime   time.Duration
-	Wall         time.Duration
-	Funcs        map[string]bool
-	Stubs        map[string]int
-	GoSkipped    map[string]int
-	Unknowns     int
-	Recovered    int
-	PathSamples  []string
-	Steps        int64
-	truncated    bool
-	pkgDir       string
+	Name            string
+	Paths           int // completed feasible paths
+	PathsOK         int
+	Decisions       int // symbolic branch decisions
+	ChecksProved    int
+	ChecksConst     int
+	Violations      map[string]*Violation
+	Inconclusive    map[string]int // reason -> count
+	Reached         map[string]int
+	Samples         []Sample
+	MaxAlloc        int
+	Notes           map[string]int
+	Queries         int
+	SolverTime      time.Duration
+	Wall            time.Duration
+	Funcs           map[string]bool
+	Stubs           map[string]int
+	GoSkipped       map[string]int
+	Unknowns        int
+	Recovered       int
+	PathSamples     []string
+	Steps           int64
+	truncated       bool
+	pkgDir          string
+	FallbackAnswers int
 }
 
 type Explorer struct {
@@ -641,6 +644,7 @@ func Explore(prog *ssa.Program, fn *ssa.Function, opts *Options) *HarnessResult 
 				panic(err)
 			}
 			defer solver.Close()
+			solver.Fallbacks = opts.Fallbacks
 			in := NewInterp(prog, solver, opts)
 			in.ex = ex
 			for {
@@ -653,6 +657,7 @@ func Explore(prog *ssa.Program, fn *ssa.Function, opts *Options) *HarnessResult 
 			}
 			ex.mu.Lock()
 			res.Queries += solver.Queries
+			res.FallbackAnswers += solver.FallbackN
 			res.SolverTime += solver.Time
 			for f := range in.funcsSeen {
 				res.Funcs[f.String()] = true
